@@ -202,8 +202,6 @@ def rank_axioms(i, m, n):
     A = i.ctx.assume
     A(rank(m, 0) == 0)
     A(z3.ForAll([k], z3.Implies(z3.And(k >= 0, k < n), rank(m, k + 1) == rank(m, k) + z3.If(z3.Select(m, k), 1, 0)),
-                patterns=[rank(m, k + 1)]))
-    A(z3.ForAll([k], z3.Implies(z3.And(k >= 0, k < n), rank(m, k + 1) == rank(m, k) + z3.If(z3.Select(m, k), 1, 0)),
                 patterns=[z3.Select(m, k)]))
     A(z3.ForAll([k], z3.Implies(z3.And(k >= 0, k <= n), z3.And(rank(m, k) >= 0, rank(m, k) <= k, rank(m, k) <= rank(m, n))),
                 patterns=[rank(m, k)]))
